@@ -64,7 +64,7 @@ func c07wsAlphabet() []c07Event {
 	return []c07Event{
 		{Op: "wsreg", K: 0, E: 0}, {Op: "wsreg", K: 0, E: 1}, {Op: "wsreg", K: 1, E: 0}, {Op: "wsreg", K: 1, E: 1}, {Op: "wsreg", K: 2, E: 1},
 		{Op: "wsclose", K: 0}, {Op: "wsclose", K: 1}, {Op: "wsclose", K: 2},
-		{Op: "deliver", E: 0}, {Op: "deliver", E: 1}, {Op: "deliver", E: 2},
+		{Op: "deliver", E: 0}, {Op: "deliver", E: 1}, {Op: "deliver", E: 2}, {Op: "deliver", E: 3},
 	}
 }
 
